@@ -267,10 +267,27 @@ def coefficient_oracle(R, inv, n):
             if abs(got - want) > 1e-9:
                 bad = bad or {'check': 'coefficient row', 'phase': ph, 'azimuth_deg': az, 'takeoff_deg': toa,
                               'M': M.tolist(), 'got': got, 'expected': want}
-        # radians entry point and the rotation statement
-        rowr = np.asarray(inv.station_angles((np.matrix([[a]]), np.matrix([[t]])), 'P', True)).flatten()
-        if abs(float(rowr.dot(six)) - float(g.dot(M).dot(g))) > 1e-9:
-            bad = bad or {'check': 'coefficient row (radians)', 'azimuth': a, 'takeoff': t, 'M': M.tolist()}
+        # radians entry point, every phase
+        for ph, vec in (('P', g), ('SH', phi), ('SV', th)):
+            rowr = np.asarray(inv.station_angles((np.matrix([[a]]), np.matrix([[t]])), ph, True)).flatten()
+            if abs(float(rowr.dot(six)) - float(vec.dot(M).dot(g))) > 1e-9:
+                bad = bad or {'check': 'coefficient row (radians)', 'phase': ph, 'azimuth': a, 'takeoff': t, 'M': M.tolist()}
+        # ratio phases return the (numerator, denominator) coefficients of their own phases, in degrees and in radians
+        vecs = {'P': g, 'SH': phi, 'SV': th}
+        for rp in (('P/SH', 'P', 'SH'), ('P/SV', 'P', 'SV'), ('SH/SV', 'SH', 'SV'), ('P/SHQ', 'P', 'SH'), ('p/sv', 'P', 'SV')):
+            for rad in (False, True):
+                st_r = (np.matrix([[a]]), np.matrix([[t]])) if rad else st
+                R.count(('coef-ratio', i, rp[0], rad))
+                try:
+                    pair = inv.station_angles(st_r, rp[0], rad)
+                    got2 = [float(np.asarray(x).flatten().dot(six)) for x in pair]
+                except Exception as ex:
+                    bad = bad or {'check': 'ratio phase coefficients raised %r' % ex, 'phase': rp[0], 'radians': rad, 'azimuth_deg': az, 'takeoff_deg': toa}
+                    continue
+                want2 = [float(vecs[rp[1]].dot(M).dot(g)), float(vecs[rp[2]].dot(M).dot(g))]
+                if len(got2) != 2 or max(abs(x - y) for x, y in zip(got2, want2)) > 1e-9:
+                    bad = bad or {'check': 'ratio phase coefficient rows (numerator, denominator)', 'phase': rp[0], 'radians': rad,
+                                  'azimuth_deg': az, 'takeoff_deg': toa, 'M': M.tolist(), 'got': got2, 'expected': want2}
     return bad
 
 
